@@ -78,11 +78,15 @@ type Chunk struct {
 }
 
 type Case struct {
-	Kind   string   `json:"kind"`   // parse | text | filter
+	Kind   string   `json:"kind"`   // parse | text | filter | rotate
 	Stream string   `json:"stream"` // corpus printed raw malformed text filter
 	Line   string   `json:"line,omitempty"`
 	Text   []Chunk  `json:"text,omitempty"`
 	Evs    []Ev     `json:"evs,omitempty"`
+	Evs2   []Ev     `json:"evs2,omitempty"` // kind rotate: received while the log file cannot be written
+	Evs3   []Ev     `json:"evs3,omitempty"` // kind rotate: received after the rotation recovered
+	Out3   []string `json:"out3,omitempty"` // kind rotate: the log file after the recovery
+	Levels []string `json:"levels,omitempty"` // log levels at which the case was also run (results must not differ)
 	Want   *Item    `json:"want,omitempty"` // the item that was printed (round trip), when it is canonical
 	// filter histories with a consumer of the log channel that stops reading for a while
 	Stalled    bool `json:"stalled,omitempty"`
@@ -219,11 +223,24 @@ func (c *Case) record(line string) {
 }
 
 // ---------------------------------------------------------------- running the real code
-func runParse(c *Case) {
+// runParse: ParseLine at the default (error/info) level and at debug and trace level; the result
+// handed to the model is the one of the level picked by the case number, the others must equal it.
+func runParse(c *Case, idx int) (note string) {
 	c.Durs, c.Res, c.Ints = nil, nil, nil
 	c.record(c.Line)
-	it := project(file.ParseLine(c.Line))
-	c.Obs = &it
+	its := []Item{project(file.ParseLine(c.Line))}
+	c.Levels = []string{"default"}
+	for _, l := range otherLevels {
+		atLevel(l, func() { its = append(its, project(file.ParseLine(c.Line))) })
+		c.Levels = append(c.Levels, l.String())
+	}
+	for k := 1; k < len(its); k++ {
+		if its[k] != its[0] && note == "" {
+			note = fmt.Sprintf("ParseLine(%q) returns %v at the default log level and %v at %s level", clip(c.Line), its[0], its[k], c.Levels[k])
+		}
+	}
+	c.Obs = &its[idx%len(its)]
+	return note
 }
 
 func textOf(cs []Chunk) string {
@@ -292,6 +309,34 @@ func runText(c *Case) (errs []string, note string) {
 	defer os.Remove(f.Name())
 	got, lerr := file.LoadFile(f.Name())
 	got2, lerr2 := collect(func(out chan interface{}) error { return file.ParseByLine(strings.NewReader(text), out) })
+	// the same file at debug and at trace level (relay client file in development mode): nothing
+	// may differ.  Texts with lines of a MiB or more only at debug level (the echo is costly).
+	c.Levels = []string{"default"}
+	perLevel := [][]interface{}{got}
+	for _, l := range otherLevels {
+		if len(text) > 1<<20 && l == log.TraceLevel {
+			continue
+		}
+		var gl []interface{}
+		var el error
+		atLevel(l, func() { gl, el = file.LoadFile(f.Name()) })
+		c.Levels = append(c.Levels, l.String())
+		perLevel = append(perLevel, gl)
+		differs := len(gl) != len(got) || (el == nil) != (lerr == nil)
+		at := -1
+		for i := 0; !differs && i < len(got); i++ {
+			if project(gl[i]) != project(got[i]) {
+				differs, at = true, i
+			}
+		}
+		if differs && note == "" {
+			note = fmt.Sprintf("the file loads differently at %s level: %d items (err %v) against %d items (err %v) at the default level", l, len(gl), el, len(got), lerr)
+			if at >= 0 {
+				note += fmt.Sprintf("; item %d is %v against %v", at+1, project(gl[at]), project(got[at]))
+			}
+			levelDiffers = true
+		}
+	}
 	c.ObsL = nil
 	for _, it := range got {
 		c.ObsL = append(c.ObsL, project(it))
@@ -301,14 +346,20 @@ func runText(c *Case) (errs []string, note string) {
 		same = project(got2[i]) == c.ObsL[i]
 	}
 	if !same {
-		note = fmt.Sprintf("LoadFile gave %d items (err %v), ParseByLine on the same bytes %d items (err %v)", len(got), lerr, len(got2), lerr2)
+		note += fmt.Sprintf(" LoadFile gave %d items (err %v), ParseByLine on the same bytes %d items (err %v)", len(got), lerr, len(got2), lerr2)
 	}
 	c.TooLong = lerr != nil
 	if lerr != nil && !errors.Is(lerr, bufio.ErrTooLong) {
 		note += fmt.Sprintf(" LoadFile failed with %v", lerr)
 	}
-	// a reported error text repeats its line: keep only what the oracle needs of a very long one
-
+	// the items handed to Check, to the oracle and to the model are those of one of the levels,
+	// taken in turn from file to file
+	textSeq++
+	got = perLevel[textSeq%len(perLevel)]
+	c.ObsL = nil
+	for _, it := range got {
+		c.ObsL = append(c.ObsL, project(it))
+	}
 	var cerr error
 	errs, cerr = file.Check(got)
 	c.NErr = len(errs)
@@ -338,6 +389,11 @@ func hasDelete(evs []Ev) bool {
 }
 
 var filterStalls int
+
+// levelDiffers: the last runText saw a result that depends on the log level
+var levelDiffers bool
+
+var textSeq int
 
 // runFilter drives the real FilterLines goroutine: every send is a rendezvous with its single
 // select loop, which handles one event completely (including the write to w, buffered here)
@@ -668,6 +724,9 @@ func (c *Case) coq() string {
 	}) {
 		mt = append(mt, lib.Tuple(lib.Str(k), strList(c.Match[k])))
 	}
+	if c.Kind == "rotate" {
+		return lib.App("CRotated", lib.List(mt), coqEvs(c.Evs), coqEvs(c.Evs2), coqEvs(c.Evs3), strList(c.Out), strList(c.Out3))
+	}
 	for _, e := range c.Evs {
 		switch e.A {
 		case "":
@@ -694,6 +753,36 @@ func (c *Case) coq() string {
 	}
 	return lib.App("CFilter", lib.List(mt), lib.List(evs), strList(c.Out))
 }
+
+func coqEvs(es []Ev) string {
+	var evs []string
+	for _, e := range es {
+		switch e.A {
+		case "":
+			evs = append(evs, "(Line "+lib.Str(e.S)+")")
+		case "accept":
+			evs = append(evs, "(Act (Accept "+lib.Str(e.S)+"))")
+		case "deny":
+			evs = append(evs, "(Act (Deny "+lib.Str(e.S)+"))")
+		case "reset":
+			evs = append(evs, "(Act Reset)")
+		default:
+			evs = append(evs, "(Act Unknown)")
+		}
+	}
+	return lib.List(evs)
+}
+
+// atLevel runs f with the logrus level set (output is discarded throughout); the file tool runs
+// at debug level with RELAY_CLIENT_FILE_DEVELOPMENT=true, and nothing it does may depend on that.
+func atLevel(l log.Level, f func()) {
+	old := log.GetLevel()
+	log.SetLevel(l)
+	defer log.SetLevel(old)
+	f()
+}
+
+var otherLevels = []log.Level{log.DebugLevel, log.TraceLevel}
 
 // ---------------------------------------------------------------- main
 func main() {
@@ -802,6 +891,16 @@ func main() {
 		stalled = append(stalled, &Case{Kind: "filter", Stream: "filter-stalled", Stalled: true, StallMs: 700, Buf: 10, PauseAfter: 2,
 			Cancel: true, Evs: genFilterStall(r, 12)})
 	}
+	// log rotations that fail once and recover (FilterLines -> Write -> reopen.FileWriter as in Run)
+	var rotated []*Case
+	var rotatedNote []string
+	if a.Replay == "" {
+		for k := 0; k < a.Pick(3, 24); k++ {
+			e1, e2, e3 := genRotate(rng.Fork())
+			rotated = append(rotated, &Case{Kind: "rotate", Stream: "rotate", Evs: e1, Evs2: e2, Evs3: e3})
+		}
+	}
+	rotatedNote = make([]string, len(rotated))
 	stalledDirect = make([][]string, len(stalled))
 	go func() {
 		var wg sync.WaitGroup
@@ -810,6 +909,13 @@ func main() {
 			go func(k int) {
 				defer wg.Done()
 				stalledDirect[k] = runFilterStalled(stalled[k])
+			}(k)
+		}
+		for k := range rotated {
+			wg.Add(1)
+			go func(k int) {
+				defer wg.Done()
+				rotatedNote[k] = runRotate(rotated[k])
 			}(k)
 		}
 		wg.Wait()
@@ -821,7 +927,9 @@ func main() {
 		c := &cases[i]
 		switch c.Kind {
 		case "parse":
-			runParse(c)
+			if note := runParse(c, i); note != "" {
+				res.Violate(lib.Violation{Clause: "exactly-one-item", Case: i, Key: "exactly-one-item:result-depends-on-log-level", Detail: note, Replay: c})
+			}
 			oracleLine(c.Line, *c.Obs, c.Want, i, c, res)
 			res.Count("parse:" + c.Stream)
 			res.Count("observed:" + c.Obs.K)
@@ -849,6 +957,10 @@ func main() {
 			}
 			res.CountN("filter-events", len(c.Evs))
 			res.CountN("filter-lines-logged", len(c.Out))
+		case "rotate":
+			note := runRotate(c) // a replay
+			oracleRotate(c, note, i, res)
+			res.Count("rotate")
 		default:
 			fmt.Fprintln(os.Stderr, "unknown case kind", c.Kind)
 			os.Exit(2)
@@ -871,6 +983,15 @@ func main() {
 			continue
 		}
 		oracleFilter(c, stalledDirect[k], i, res)
+		cases = append(cases, *c)
+		coq = append(coq, c.coq())
+		res.Cases = append(res.Cases, *c)
+	}
+	for k, c := range rotated {
+		i := len(cases)
+		res.Count("rotate")
+		res.CountN("rotate:lines-in-the-new-log-file", len(c.Out3))
+		oracleRotate(c, rotatedNote[k], i, res)
 		cases = append(cases, *c)
 		coq = append(coq, c.coq())
 		res.Cases = append(res.Cases, *c)
